@@ -21,6 +21,10 @@ pub struct Case {
   pub other_epoch: String,
   pub other_m: Hx,
   pub swaps: Vec<(u16, u16)>,
+  /// before each grouping call, make a call that fails while decoding: 0 = none, 1 = valid lines then an
+  /// empty last line, 2 = valid lines (another measurement) then a garbage line, 3 = garbage only
+  #[serde(default)]
+  pub poison: u8,
 }
 
 fn epoch_string() -> BoxedStrategy<String> {
@@ -43,8 +47,9 @@ fn strat(_t: Tier) -> BoxedStrategy<Case> {
     epoch_string(),
     bytes(60),
     vec((any::<u16>(), any::<u16>()), 0..5),
+    prop_oneof![2 => Just(0u8), 1 => Just(1u8), 1 => Just(2u8), 1 => Just(3u8)],
   )
-    .prop_map(|(m, t, epoch, delta, dups, other_epoch, other_m, swaps)| Case {
+    .prop_map(|(m, t, epoch, delta, dups, other_epoch, other_m, swaps, poison)| Case {
       m,
       t,
       epoch,
@@ -53,6 +58,7 @@ fn strat(_t: Tier) -> BoxedStrategy<Case> {
       other_epoch,
       other_m,
       swaps,
+      poison,
     })
     .boxed()
 }
@@ -148,6 +154,31 @@ fn oracle(c: &Case, st: &mut Stats) -> Result<(), String> {
   }
   let joined = lines.join("\n");
   let key_b64 = BASE64_STANDARD.encode(&created[0].key);
+  // the outcome of a call must not depend on earlier calls: optionally precede every
+  // grouping call by one that is rejected while decoding (after some valid lines)
+  let poison_text: Option<String> = match c.poison {
+    1 => Some(format!("{}\n{}\n", created[0].share_b64, created[created.len() - 1].share_b64)),
+    2 => {
+      let mut om = c.other_m.0.clone();
+      om.push(0x77);
+      let a = create(&om, t, &c.epoch)?;
+      let b2 = create(&om, t, &c.epoch)?;
+      Some(format!("{}\n{}\n@@ not base64 @@", a.share_b64, b2.share_b64))
+    }
+    3 => Some("@@\n\n".to_string()),
+    _ => None,
+  };
+  let poison = |st: &mut Stats| -> Result<(), String> {
+    if let Some(p) = &poison_text {
+      st.evals(1);
+      if let Some(k) = star_wasm::group_shares(p, &c.epoch) {
+        return Err(format!("group_shares accepted a batch with an undecodable line and returned {k}: {p:?}"));
+      }
+      st.class("preceded-by-a-rejected-call");
+    }
+    Ok(())
+  };
+  poison(st)?;
   let res = star_wasm::group_shares(&joined, &c.epoch);
   st.evals(1);
   if n >= t as usize {
@@ -164,6 +195,7 @@ fn oracle(c: &Case, st: &mut Stats) -> Result<(), String> {
     }
     // a different epoch never yields the clients' key
     if c.other_epoch != c.epoch {
+      poison(st)?;
       let r2 = star_wasm::group_shares(&joined, &c.other_epoch);
       st.evals(1);
       if r2.as_deref() == Some(&key_b64[..]) {
@@ -191,6 +223,7 @@ fn oracle(c: &Case, st: &mut Stats) -> Result<(), String> {
     for (a, b) in &c.swaps {
       mixed.swap(idx(*a, len), idx(*b, len));
     }
+    poison(st)?;
     let r = star_wasm::group_shares(&mixed.join("\n"), &c.epoch);
     st.evals(1);
     if let Some(k) = r {
